@@ -386,6 +386,8 @@ CHECKS = {
             T('MC_Req', 'Req_2ctx_retry.cfg', tiers=('thorough',)),
             T('MC_Req', 'Req_2ctx_deadl.cfg', tiers=('thorough',)),
             C('req', 'TestReq', 'TraceReq', n={'quick': 120, 'thorough': 1500}),
+            C('reqscn', 'TestReq', 'TraceReq', file='req', n={'quick': 150, 'thorough': 4000},
+              scn=[('MC_ReqScn', {'quick': ['ReqScn_retry.cfg'], 'thorough': ['ReqScn_retry6.cfg', 'ReqScn_deadl.cfg', 'ReqScn_be.cfg']})]),
         ],
         'assumptions': ASSUME_COMMON,
     },
@@ -396,6 +398,8 @@ CHECKS = {
             T('MC_Req', 'Req_2ctx_retry.cfg', tiers=('thorough',)),
             T('MC_Req', 'Req_1ctx_all.cfg', tiers=('thorough',)),
             C('req', 'TestReq', 'TraceReq', n={'quick': 60, 'thorough': 1000}, env={'VERIF_REQ_MIX': 'faults'}),
+            C('reqscn', 'TestReq', 'TraceReq', file='req', n={'quick': 150, 'thorough': 4000},
+              scn=[('MC_ReqScn', {'quick': ['ReqScn_retry.cfg'], 'thorough': ['ReqScn_retry6.cfg', 'ReqScn_deadl.cfg', 'ReqScn_be.cfg']})]),
         ],
         'assumptions': ASSUME_COMMON,
     },
